@@ -366,6 +366,84 @@ theorem pacing_real_gap (T D b : Int) (hT : 0 < T) (hD : 0 < D) (hb : 0 < b)
   have := Int.lt_ediv_add_one_mul_self (b * D * 1000) hT
   linarith
 
+/-- **pacing_real, closed as an equivalence.**  What keeps `pacing_real_statement` partial is exactly one thing:
+    `throttlingTrafficShapingController` computes the interval with an *integer* division
+    (`batch*durationInSec*1000/tokenCount`, the `math.Round(float64(…))` around it is applied to an integer and does
+    nothing).  Inside the no-wrap guard the code's spacing reaches the property's real-valued `batch·D/T`
+    **if and only if** the threshold divides `batch·D·1000`; everywhere else it is short by less than 1 ms
+    (`pacing_real_gap`), and it is 0 for `T > batch·D·1000` (`pacing_real_witness`).  So the finding's region is
+    precisely `¬ T ∣ batch·D·1000`, and nothing else is missing. -/
+theorem pacing_real_iff (T D b : Int) (hT : 0 < T) (hD : 0 < D) (hb : 0 < b)
+    (hfit : b * D * 1000 < 9007199254740992) : b * D * 1000 ≤ interval T D b * T ↔ T ∣ b * D * 1000 := by
+  constructor
+  · intro h
+    rw [interval_floor hT (le_of_lt hD) (le_of_lt hb) hfit] at h
+    have h2 := Int.ediv_mul_le (b * D * 1000) (ne_of_gt hT)
+    exact Dvd.intro_left _ (le_antisymm h2 h)
+  · exact pacing_real_partial T D b hT hD hb hfit
+
+/-- the real-valued pacing claim on decision lists: consecutive admitted requests are scheduled at least
+    `batch·D/T` seconds apart (`gap·T ≥ batch·D·1000` in ms·tokens) -/
+def PacedReal (T D : Int) : Option Int → List (Req × Res) → Prop
+  | _, [] => True
+  | last, p :: l =>
+    match p.2 with
+    | .pass => (∀ s, last = some s → p.1.b * D * 1000 ≤ (p.1.t - s) * T) ∧ PacedReal T D (some p.1.t) l
+    | .wait ms => (∀ s, last = some s → p.1.b * D * 1000 ≤ (p.1.t + ms - s) * T) ∧ PacedReal T D (some (p.1.t + ms)) l
+    | _ => PacedReal T D last l
+
+theorem pacedReal_of_paced {T D : Int} (hT : 0 < T) : ∀ (l : List (Req × Res)) (last : Option Int),
+    Paced T D last l → (∀ p ∈ l, interval T D p.1.b * T = p.1.b * D * 1000) → PacedReal T D last l := by
+  intro l
+  induction l with
+  | nil => intro _ _ _; trivial
+  | cons p l ih =>
+    intro last hp hall
+    have he := hall p List.mem_cons_self
+    have hrest := fun x hx => hall x (List.mem_cons_of_mem _ hx)
+    unfold Paced at hp
+    unfold PacedReal
+    cases hr : p.2 with
+    | pass =>
+      rw [hr] at hp
+      refine ⟨fun s hs => ?_, ih _ hp.2 hrest⟩
+      have := hp.1 s hs
+      nlinarith
+    | wait ms =>
+      rw [hr] at hp
+      refine ⟨fun s hs => ?_, ih _ hp.2 hrest⟩
+      have := hp.1 s hs
+      nlinarith
+    | block => rw [hr] at hp; exact ih _ hp hrest
+    | spin => rw [hr] at hp; exact ih _ hp hrest
+
+theorem mem_runThrottle (r : Rule) : ∀ (qs : List Req) (tm : LRU) (p : Req × Res), p ∈ runThrottle r tm qs → p.1 ∈ qs := by
+  intro qs
+  induction qs with
+  | nil => intro _ p hp; simp [runThrottle] at hp
+  | cons q qs ih =>
+    intro tm p hp
+    simp only [runThrottle, List.mem_cons] at hp
+    rcases hp with rfl | hp
+    · exact List.mem_cons_self
+    · exact List.mem_cons_of_mem _ (ih _ p hp)
+
+/-- **pacing_real on histories** (the full property wording), for every multi-value history in which the batches of
+    the requests for `v` satisfy `T_v ∣ batch·D·1000` — by `pacing_real_iff` this side condition cannot be weakened. -/
+theorem pacing_real_history (r : Rule) (v : Val) (tm : LRU) (hp : 0 < tm.size) (qs : List Req) (H : Int)
+    (hne : NotEvictedT r v tm qs) (hmq : 0 ≤ r.mq) (hT : 0 < tokenCount r v) (hD : 0 < r.D)
+    (hcell : ∀ s, tm.find v = some s → 0 ≤ s ∧ s ≤ H + r.mq)
+    (hall : ∀ q ∈ qs, 0 ≤ q.t ∧ q.t ≤ H ∧ 0 ≤ interval (tokenCount r v) r.D q.b ∧
+      H + r.mq + interval (tokenCount r v) r.D q.b < two63)
+    (hdvd : ∀ q ∈ qs, q.v = v → 0 < q.b ∧ q.b * r.D * 1000 < 9007199254740992 ∧ tokenCount r v ∣ q.b * r.D * 1000) :
+    PacedReal (tokenCount r v) r.D (tm.find v) (forVal v (runThrottle r tm qs)) := by
+  apply pacedReal_of_paced hT _ _ (pacing r v tm hp qs H hne hmq hcell hall).1
+  intro p hpm
+  obtain ⟨hp1, hp2⟩ := List.mem_filter.mp hpm
+  have hq := mem_runThrottle r qs tm p hp1
+  obtain ⟨d1, d2, d3⟩ := hdvd p.1 hq (by simpa using hp2)
+  exact interval_real_of_dvd hT (le_of_lt hD) (le_of_lt d1) d2 d3
+
 /-- **known finding `hot-throttle-floor`**: threshold 2000/s, batch 1, duration 1 s — the interval is 0 … -/
 theorem pacing_real_witness : ¬ pacing_real_statement := by
   intro h
